@@ -17,21 +17,24 @@ TECHNIQUE = ("Lean 4 theorems over Q (Mathlib linarith/positivity) for the backo
 LEVEL_TEXT = ("Machine-checked proof, for every configuration, retry count and random draw, that the real-number reading of "
               "Exponential.Backoff (with the saturating conversion the code performs since fix 8a2d107, finding F1) is non-negative, "
               "equals the base delay for 0 retries and lies in the "
-              "[(1-j),(1+j)] x min(base*mult^n, max) band (truncated, saturating at MaxInt64). For every sequence of connect/fail/success/timer/reset events the "
+              "[(1-j),(1+j)] x min(base*mult^n, max) band (truncated, saturating at MaxInt64). For every sequence of connect/fail/success/timer/reset/connection-lost/address-update events the "
               "addrConn pacing model never redials before failure time + backoff unless reset, and its index is the number of failures "
               "since the last success or reset.")
 LEVEL_NOTE = ("Reading: BaseDelay, MaxDelay >= 0 and finite Multiplier/Jitter (Backoff(0) returns a negative BaseDelay as is; Inf/NaN "
               "multipliers are not generated). The code computes in float64, the theorems are over Q: the monitor applies the band with the "
               "rigorous float64 rounding bound (n+16)*2^-52 relative, nothing on non-negativity or on Backoff(0). 'waits at least that "
               "backoff' is measured from the failure of the attempt to the next dial, 'that backoff' being the value the strategy returned "
-              "for the failed attempt (recorded by a wrapper around the real Exponential). Trusted: Lean kernel, the hand model, synctest "
-              "virtual time, pick_first reconnecting on IDLE (modelled in the environment part of the model).")
+              "for the failed attempt (recorded by a wrapper around the real Exponential). SubConn.UpdateAddresses is part of the model (a running backoff "
+              "is not cut short by a new address list; a dial in flight or a READY connection to a dropped address restarts at once) and is "
+              "driven through a one-subchannel LB policy of the harness, since pick_first never calls it. Trusted: Lean kernel, the hand model, "
+              "synctest virtual time, pick_first / the harness policy reconnecting on IDLE (modelled in the environment part of the model).")
 GAP = "IEEE-754 rounding (bounded, not modelled), the Go runtime timer implementation, multiple addresses per subchannel"
 ASSUMPTIONS = ["time.Duration is int64 nanoseconds", "float64 operations are correctly rounded (error <= 2^-53 relative each)",
                "time.Timer never fires early", "amd64 float64->int64 conversion of out-of-range values gives MinInt64"]
 RULE = ("backoff: grid of base/max (0, 1, ms..s, 2^53+-1, 2^62, MaxInt64) x multiplier (0.5..1e300) x jitter (0..5) x retries (0..1e5), "
         "each op = min/max of k real calls; exact-arithmetic configs are compared value for value. s_backoff: random scripts of "
-        "connect/sleep/resetbo/kill/mode(fail|ok|hang) over configs with dyadic and non-dyadic multipliers, jitter 0..0.9; sleeps are "
+        "connect/sleep/resetbo/kill/mode(fail|ok|hang)/addrs (SubConn.UpdateAddresses from a one-subchannel LB policy, in every "
+        "subchannel state, plus a directed family) over configs with dyadic and non-dyadic multipliers, jitter 0..0.9; sleeps are "
         "biased to land exactly on, just before and just after timer expiry. A case is non-trivial if it has at least two backoff calls.")
 
 
@@ -84,6 +87,7 @@ def gen_pacing(rng, tier):
     n_cases = {"quick": 60, "thorough": 1500, "search": 600}[tier]
     MS = 10**6
     for ci in range(n_cases):
+        lb = False
         if rng.random() < 0.1:
             base, mult, jit, mx = 10**9, 1.6, 0.2, 120 * 10**9
             ops = ["newdef"]
@@ -94,7 +98,10 @@ def gen_pacing(rng, tier):
             jit = rng.choice([0.0, 0.0, 0.2, 0.5, 0.9])
             mx = rng.choice([base, base * 4, base * 10, 120 * 10**9, base // 2])
             minct = rng.choice([0, base // 2, base * 3, base * 7])
-            ops = ["new %d %d %d %d %d" % (base, fb(mult), fb(jit), mx, minct)]
+            # half of the channels use the harness's one-subchannel policy, whose subchannel can be given a new
+            # address list (SubConn.UpdateAddresses, what grpclb does) at any moment
+            lb = rng.random() < 0.5
+            ops = ["%s %d %d %d %d %d" % ("newlb" if lb else "new", base, fb(mult), fb(jit), mx, minct)]
         if rng.random() < 0.3:
             ops.append("mode " + rng.choice(["fail", "ok", "hang"]))
         ops.append("connect")
@@ -127,7 +134,25 @@ def gen_pacing(rng, tier):
                 est = base
             else:
                 ops.append("connect")
+            if lb and rng.random() < 0.3:
+                # a new (mostly different) address list, in whatever state the subchannel is in; often followed
+                # by a sleep shorter than the running backoff
+                ops.append("addrs %d" % rng.randrange(3))
+                if rng.random() < 0.6:
+                    ops.append("sleep %d" % max(1, int(est * rng.choice([0.1, 0.5, 0.9]))))
         yield Case("s_backoff", ops, "pacing-%d" % ci)
+    # directed: an address update in each subchannel state (backoff running, dial in flight, READY, IDLE)
+    k = 0
+    for base, mult in ((1000 * MS, 2.0), (10 * MS, 1.5)):
+        for mode in ("fail", "hang", "ok"):
+            for frac in (0.0, 0.25, 0.9):
+                ops = ["newlb %d %d %d %d %d" % (base, fb(mult), fb(0.0), base * 8, base * 3), "mode " + mode, "connect"]
+                if frac:
+                    ops.append("sleep %d" % int(base * frac))
+                ops += ["addrs 1", "sleep %d" % (base // 2), "addrs 1", "addrs 2", "sleep %d" % (base * 4), "mode fail",
+                        "addrs 0", "sleep %d" % (base // 3), "addrs 1", "sleep %d" % (base * 6), "kill", "addrs 2", "connect", "sleep %d" % base]
+                yield Case("s_backoff", ops, "addrs-directed-%d" % k)
+                k += 1
 
 
 def gen(rng, tier):
